@@ -209,6 +209,26 @@ def _run_single(case, tables, trace):
                 stats_extra["detour_returns"] += 1
             seen_d[d] = (j, step)
             record(d, h, where)
+            if model.hmeta_unknown:  # after clear(): adopt what is observed (DESIGN 4.5)
+                try:
+                    model.hmeta = json.loads(json.dumps(obj.get_hypergraph_metadata()))
+                    model.hmeta_unknown = False
+                except Exception:
+                    pass
+            if not model.hmeta_unknown:
+                # the same table keyed by the content the *history* defines (reference model): two construction
+                # histories that end in the same abstract content must hash alike even if the object itself
+                # has been left inconsistent by one of them
+                md = digest(model.content())
+                t = tables.setdefault("m2h", {})
+                if md in t:
+                    if t[md][0] != h:
+                        raise Violation("C07/same-history-content-different-hash", {
+                            "model_content_digest": md, "hash_a": t[md][0], "at_a": t[md][1], "hash_b": h, "at_b": where,
+                            "content": short(json.dumps(model.content(), default=repr), 600)})
+                else:
+                    t[md] = [h, where]
+                stats_extra["model_keyed_entries"] = stats_extra.get("model_keyed_entries", 0) + 1
             trace.append(h)
             if crng.random() < 0.12:
                 stats_extra["rebuilds"] += 1
@@ -301,7 +321,7 @@ def _big_content_checks(kind, case, crng, record, stats_extra):
 
 def execute(case):
     sut()
-    tables = {"d2h": {}, "h2d": {}}
+    tables = {"d2h": {}, "h2d": {}, "m2h": {}}
     trace = []
     try:
         if "pair" in case:
@@ -317,7 +337,8 @@ def execute(case):
                 "sample": hist.sample_of(case) if "ops" in case else None}
     res["digest"] = digest([case["kind"], trace, res["digest"]])
     res["stats"]["_maps"] = {"d2h": {d: v for d, v in tables["d2h"].items()},
-                             "h2d": {h: v for h, v in tables["h2d"].items()}}
+                             "h2d": {h: v for h, v in tables["h2d"].items()},
+                             "m2h": {d: v for d, v in tables["m2h"].items()}}
     res["sample"] = hist.sample_of(case)
     return res
 
@@ -348,7 +369,7 @@ def conflict_case(name, key, v1, v2, tier):
 
 
 def trace_of(case):
-    tables = {"d2h": {}, "h2d": {}}
+    tables = {"d2h": {}, "h2d": {}, "m2h": {}}
     trace = []
     _run_single(case, tables, trace)
     return trace
